@@ -114,8 +114,18 @@ func runC02case(t *vf.T, c c02case) {
 		}
 		t.Count("runs_reporting_error", 1)
 		t.Seen("errors", errShort(e))
+		// Machines the executor itself declared lost: more than were killed means that the
+		// keepalive of a live machine timed out (a starved host). That is a machine loss like any
+		// other ("at any moments"): the run may report an error, but the stricter expectations
+		// below, which assume that the scripted kill was the only loss, do not apply.
+		lost := ls.lostMachines()
+		if len(lost) > kills {
+			t.Count("runs_with_machine_losses_not_caused_by_the_monitor", 1)
+			t.Nontrivial("")
+			return
+		}
 		if kills == 0 {
-			t.Violate(sig+" error-without-loss", fmt.Sprintf("no machine was killed (the kill point was never reached) but the run failed: %v", e))
+			t.Violate(sig+" error-without-loss", fmt.Sprintf("no machine was killed (the kill point was never reached) and the executor recorded no machine loss, but the run failed: %v", e))
 			return
 		}
 		if len(c.Kills) == 1 && kills == 1 && ls.IP != nil && atomic.LoadInt64(&ls.IP.held) == 1 {
